@@ -264,7 +264,7 @@ def check_loop(ctx, key):
         return '; '.join('%s on path [%s]' % (m, paths.describe(p, 6)) for p, m in lst[:2])
     # the clock the waiting times are added to starts at the interface's initial time: the events between that time and the first
     # requested time point are part of "the events that precede it"
-    init_t = sl.prelude_assign('current_time')
+    init_t = sl.prelude_assign('current_time', resolve=True)
     t_txt = src(util.strip_cast(init_t)).replace(' ', '') if init_t is not None else None
     ctx.ob('R5.2-clock', key, t_txt == 'sim.get_initial_time()', sl.loc(init_t) if init_t is not None else sl.where,
            "the simulation clock starts at the interface's initial time (not at the first requested time point)", 'current_time = %s' % t_txt)
